@@ -1516,3 +1516,171 @@ def big_ack_cases(prefix="bigack"):
                 "ADV %d" % (10200 * MS), "PULL %s 2000 1" % Sn, "STATS " + S2]
         cases.append(("%s-%d-%d" % (prefix, n, pulls), ops))
     return cases
+
+
+# ---------------------------------------------------------------- round 6
+
+def stream_flood_cases(ns=(99, 100, 101, 130), prefix="sf"):
+    """Many StreamingPull streams open at once on ONE connection (more than any transport-level stream limit one
+    might be tempted to set), then the calls those streams are waiting for: everything is answered."""
+    T, Sn, S2 = hx(tname("p", "t")), hx(sname("p", "s")), hx(sname("p", "other"))
+    cases = []
+    for n in ns:
+        ops = ["SEED 9", "CT " + T, "CS %s %s 10 ~" % (Sn, T), "CS %s %s 10 ~" % (S2, T)]
+        for i in range(n):
+            ops.append("SO %d %s 10 0 10" % (i + 1, Sn if i % 2 == 0 else S2))
+        ops += ["PUB %s 1 61 0" % T, "GS " + Sn, "STATS " + Sn, "PULL %s 5 1" % Sn, "SR 1", "SR 2",
+                "DS " + Sn, "DS " + S2, "SR 1", "SR 2", "SR %d" % n, "GT " + T]
+        cases.append(("%s-n%d" % (prefix, n), ops))
+    return cases
+
+
+def busy_list_cases(prefix="bl"):
+    """Listing while another request is on its way to one of the listed resources (started just before, without
+    letting the runtime settle): the listing is still in creation order, each resource once."""
+    cases = []
+    order = [3, 7, 1, 6, 2, 5, 4]
+    T = hx(tname("p", "t"))
+    for victim in range(len(order)):
+      for yk in (0, 1, 2, 3, 4, 5, 6, 8, 11):
+        for size in (0, 3):
+            if size and yk % 2:
+                continue
+            ops = ["SEED %d" % victim, "CT " + T, "CT " + hx(tname("p", "t2")), "CT " + hx(tname("p", "t0"))]
+            subs = [hx(sname("p", "s%d" % k)) for k in order]
+            for sn in subs:
+                ops.append("CS %s %s 10 ~" % (sn, T))
+            ops.append("PUB %s 1 61 0" % T)
+            n = 900
+            for kind, arg in (("LS", hx("projects/p")), ("LTS", T), ("LT", hx("projects/p"))):
+                tok = "-"
+                for page in range(4 if size else 1):
+                    ops.append("BG %d PULL %s 1 1" % (n, subs[victim]))
+                    ops.append("BG %d GS %s" % (n + 1, subs[(victim + 3) % len(subs)]))
+                    if yk:
+                        ops.append("YIELD %d" % yk)       # how far the two requests have got when the List starts
+                    ops.append("%s %s %d %s" % (kind, arg, size, tok))
+                    ops += ["Q", "JOIN %d" % n, "JOIN %d" % (n + 1)]
+                    n += 2
+                    tok = hx(token_of((page + 1) * size)) if size else "-"
+            cases.append(("%s-v%d-y%d-s%d" % (prefix, victim, yk, size), ops))
+    return cases
+
+
+def many_topics_cases(prefix="mt"):
+    """24 topics, 12 single-message Publish calls each (so that topic-internal ids and per-topic counters both pass 10
+    and 20): every id distinct, every delivery carries the id its Publish returned."""
+    ops = ["SEED 4"]
+    topics = [hx(tname("p", "t%02d" % i)) for i in range(24)]
+    subs = [hx(sname("p", "s%02d" % i)) for i in range(24)]
+    for t, sn in zip(topics, subs):
+        ops += ["CT " + t, "CS %s %s 10 ~" % (sn, t)]
+    for j in range(12):
+        for i, t in enumerate(topics):
+            ops.append("PUB %s 1 %s 0" % (t, hx("t%d-m%d" % (i, j))))
+    for sn in subs:
+        ops.append("PULL %s 100 1" % sn)
+    return [(prefix, ops)]
+
+
+def create_vs_delete_topic_cases(ks=range(0, 10), prefix="cvd"):
+    """CreateSubscription racing the DeleteTopic of its topic (each client looks at its result at once): whatever the
+    create answers, the name exists exactly if it answered OK."""
+    cases = []
+    for k in ks:
+        T, S2 = hx(tname("p", "t")), hx(sname("p", "fresh"))
+        ops = ["SEED %d" % k, "CT " + T, "CS %s %s 10 ~" % (hx(sname("p", "old")), T)]
+        a, b = "BG 900 SEQ DT %s ;; GT %s" % (T, T), "BG 901 SEQ CS %s %s 10 ~ ;; GS %s" % (S2, T, S2)
+        first, second = (a, b) if k % 2 == 0 else (b, a)
+        ops += [first, "YIELD %d" % (k // 2), second, "Q", "JOIN 900", "JOIN 901", "GS " + S2, "LS %s 0 -" % hx("projects/p"),
+                "CS %s %s 10 ~" % (S2, T), "GS " + S2]
+        cases.append(("%s-k%d" % (prefix, k), ops))
+    return cases
+
+
+def abandoned_delete_during_create_cases(prefix="adc"):
+    """A CreateSubscription polled once (stored, its attachment still on its way) and, WITHOUT letting anything run, a
+    DeleteSubscription of it that has to wait for room in the subscription's saturated mailbox and is abandoned there:
+    a deletion that was never received has no effect - the subscription exists, so it is attached."""
+    T, S2, Sn = hx(tname("p", "t")), hx(sname("p", "new")), hx(sname("p", "s"))
+    cases = []
+    for fill in (16, 17, 24):
+        for k in (1, 2):
+            ops = ["SEED 6", "CT " + T, "CS %s %s 10 ~" % (Sn, T),
+                   "SEQ XC CS 1 0 0 %s %s 10 ;; XC DS %d 0 %d %s" % (S2, T, k, fill, S2), "Q",
+                   "GS " + S2, "LTS %s 0 -" % T, "STATS " + S2, "PUB %s 1 70 0" % T, "STATS " + S2, "PULL %s 10 1" % S2]
+            cases.append(("%s-f%d-k%d" % (prefix, fill, k), ops))
+    return cases
+
+
+def registry_enum_cases(depth=4, prefix="rg"):
+    """EVERY sequence (up to the given length) over create-as-push / create-as-pull / delete of one subscription name
+    and create / delete of its topic, with the push registry, the subscription and the topic's list read after each
+    step: the registry holds exactly the push subscriptions that exist."""
+    import itertools
+    T, Sn = hx(tname("p", "t")), hx(sname("p", "s"))
+    EP1, EP2 = hx("http://127.0.0.1:9/one"), hx("http://127.0.0.1:9/two")
+    alpha = {"push": "CS %s %s 10 %s" % (Sn, T, EP1), "push2": "CS %s %s 10 %s" % (Sn, T, EP2), "pull": "CS %s %s 10 ~" % (Sn, T),
+             "ds": "DS " + Sn, "dt": "DT " + T, "ct": "CT " + T}
+    cases = []
+    for d in range(1, depth + 1):
+        for seq in itertools.product(list(alpha), repeat=d):
+            if seq[0] in ("ds", "ct"):
+                continue
+            ops = ["SEED 8", "CT " + T]
+            for a in seq:
+                ops += [alpha[a], "REG", "GS " + Sn]
+            ops += ["LTS %s 0 -" % T, "LS %s 0 -" % hx("projects/p"), "REG"]
+            cases.append(("%s-%s" % (prefix, "_".join(seq)), ops))
+    return cases
+
+
+def orphan_wait_cases(prefix="ow"):
+    """A subscription whose topic has been deleted still holds a leased message; a blocking Pull on it must wait (for
+    the nack, or for the lease to run out) like on any other subscription - not answer empty at once."""
+    T, Sn = hx(tname("p", "t")), hx(sname("p", "s"))
+    cases = []
+    for how in ("nack", "expire", "limit"):
+        for recreate in (False, True):
+            ops = ["SEED 2", "CT " + T, "CS %s %s 10 ~" % (Sn, T), "PUB %s 1 61 0" % T, "PULL %s 5 1" % Sn, "DT " + T]
+            if recreate:
+                ops.append("CT " + T)
+            ops += ["BG 100 PULL %s 5 0" % Sn, "Q", "JOIN 100", "STATS " + Sn]
+            if how == "nack":
+                ops += ["MOD %s 0 1 ^0" % Sn, "Q", "JOIN 100"]
+            elif how == "expire":
+                ops += ["ADV %d" % (5000 * MS), "JOIN 100", "ADV %d" % (5200 * MS), "JOIN 100"]
+            else:
+                ops += ["ACK %s 1 ^0" % Sn, "ADV %d" % (299000 * MS), "JOIN 100", "ADV %d" % (1100 * MS), "JOIN 100"]
+            ops += ["STATS " + Sn, "JOIN 100"]
+            cases.append(("%s-%s%s" % (prefix, how, "-recreated" if recreate else ""), ops))
+    return cases
+
+
+def control_shape_cases(prefix="cshape"):
+    """Every shape of a follow-up StreamingPull control message: 0..2 ack ids, 0..2 modify ids, 0..2 seconds. When the
+    modify ids and the seconds differ in number the message is inconsistent: INVALID_ARGUMENT, nothing applied."""
+    T, Sn = hx(tname("p", "t")), hx(sname("p", "s"))
+    cases = []
+    for na in (0, 1, 2):
+        for nm in (0, 1, 2):
+            for ns in (0, 1, 2):
+                acks = ["^0", "^1"][:na]
+                mods = ["^2", "^1"][:nm]
+                secs = ["30", "0"][:ns]
+                ops = ["SEED 3", "CT " + T, "CS %s %s 10 ~" % (Sn, T), "PUB %s 3 61 0 62 0 63 0" % T,
+                       "SO 1 %s 10 0 10" % Sn, "SR 1", "STATS " + Sn,
+                       " ".join(("SS 1 - 0 0 %d %s %d %s %d %s" % (na, " ".join(acks), nm, " ".join(mods), ns, " ".join(secs))).split()),
+                       "SR 1", "STATS " + Sn, "GT " + T, "PULL %s 5 1" % Sn, "SR 1"]
+                cases.append(("%s-a%d-m%d-s%d" % (prefix, na, nm, ns), ops))
+    return cases
+
+
+def push_slow_cases(prefix="pslow"):
+    """An endpoint that takes 11 s (real time) to answer with an accepted status, on a push subscription whose ack
+    deadline (60 s) leaves it that time: the message is POSTed once and never again."""
+    T, P0 = hx(tname("p", "t")), hx(sname("p", "push0"))
+    ops = ["MODE push", "SEED 1", "CT " + T, "CS %s %s 60 %s" % (P0, T, hx("http://ep/e0")),
+           "EP 0 3 slow200 200 200", "PUB %s 1 %s 0" % (T, hx("m0")), "ROUND", "STATS " + P0, "ROUND", "STATS " + P0,
+           "ROUND", "STATS " + P0]
+    return [(prefix, ops)]
